@@ -53,7 +53,7 @@ RANK = {"LIKELY_SAFE": 0, "POSSIBLY_UNSAFE": 1, "SUSPICIOUS": 2, "LIKELY_UNSAFE"
         "LIKELY_OVERTLY_MALICIOUS": 4, "OVERTLY_MALICIOUS": 5}  # fmt: skip
 THRESHOLDS = tuple(RANK)
 STREAMS = ("bytes", "bytesio", "file", "raw_seekable", "non_seekable", "flip", "file_offset", "mmap_offset",
-           "file_rewritten")
+           "file_rewritten", "fd_file", "bytesio_offset")
 PATHS = ("loader", "hook", "hook_threshold", "context", "hook_after_context", "hook_after_lenient_context", "outer_context_after_inner",
          "context_after_ml_cycle")
 FAULTS = (None, "ValueError", "KeyError", "AttributeError", "RecursionError", "MemoryError")
@@ -330,6 +330,20 @@ def make_stream(kind, data, scratch, flip_to=None):
         os.utime(path, ns=(st0.st_atime_ns, st0.st_mtime_ns))
         fh = open(path, "rb")
         return fh, fh
+    if kind == "fd_file":
+        # a stream opened from a file descriptor: its .name is an integer
+        path = os.path.join(scratch.path, "c02-fd.pkl")
+        with open(path, "wb") as f:
+            f.write(data)
+        fh = os.fdopen(os.open(path, os.O_RDONLY), "rb")
+        return fh, fh
+    if kind == "bytesio_offset":
+        # an in-memory buffer holding another (flagged) record first, handed over positioned on
+        # the pickle
+        head = b"cverif_sink\nsink\n(S'record in front of the position'\ntR."
+        b = io.BytesIO(head + data)
+        b.seek(len(head))
+        return b, None
     if kind in ("file_offset", "mmap_offset"):
         # the pickle is the second record of a file; the stream is handed over positioned on it
         import mmap
@@ -588,6 +602,13 @@ def _payloads():
     nat = st.tuples(values.plain_values(max_leaves=6), st.sampled_from(range(6))).map(
         lambda t: pickle.dumps(t[0], protocol=t[1])
     )
+    # text with lone surrogates (what os.fsdecode yields for undecodable names; the pickler writes
+    # them with surrogatepass), alone and inside containers
+    lone = st.tuples(st.sampled_from(["\udc80", "a\udcffb", "\ud800", ["\udc80\udc81", "x"], {"k\udcfe": ("\udc9f" * 3, 1)},
+                                      ["\udcff" * 40, b"\xff", "tail"]]), st.sampled_from(range(6))).map(
+        lambda t: pickle.dumps(t[0], protocol=t[1])
+    )
+    nat = st.one_of(nat, nat, nat, lone)
     flagged = st.sampled_from(FLAGGED)
     raises = st.sampled_from(ANALYSIS_RAISES)
     trunc = st.tuples(st.one_of(nat, flagged), st.integers(0, 60)).map(lambda t: t[0][: t[1]])
